@@ -491,6 +491,7 @@ class PyFlow:
                 continue
             # variables assigned in the body are unknown inside and after the loop
             assigned = self._assigned_names(st.body)
+            saved_vals = {n: q.env.get(n) for n in assigned}
             q.havoc += 1
             tag = f"@L{q.havoc}"
             inner = q.clone()
@@ -519,6 +520,26 @@ class PyFlow:
             q.effects.append(ev)
             for n in assigned:
                 q.env[n] = V(self.names.get(n, n) + tag + "'")
+            # accumulation:  acc += f(x)  on the single body path  ->  acc = old + sum over the iterable
+            if isinstance(st, ast.For) and len(body_paths) == 1 and body_paths[0].done is None:
+                bp0 = body_paths[0]
+                tn = [x.id for x in ast.walk(st.target) if isinstance(x, ast.Name)]
+                for n in assigned:
+                    if "." in n or n in tn:
+                        continue
+                    start_ = V(self.names.get(n, n) + tag)
+                    end_ = bp0.env.get(n)
+                    if end_ is None:
+                        continue
+                    delta = end_ - start_
+                    names_in = {a_[1] for a_ in _atoms_of(delta) if a_[0] == "var"}
+                    if (self.names.get(n, n) + tag) in names_in or any(x.endswith(tag) for x in names_in):
+                        continue
+                    for i_, x in enumerate(tn):
+                        delta = rename_prefix(delta, x, f"${i_}")
+                    old_ = saved_vals.get(n)
+                    if old_ is not None:
+                        q.env[n] = old_ + Poly.atom(("sumloop", delta, it))
             if any(self._path_havocs(bp) for bp in body_paths):
                 self._havoc(q)
             returning = [bp for bp in body_paths if bp.done in ("return", "raise")]
@@ -986,13 +1007,20 @@ class PyFlow:
                 if rows is None:
                     inner = q.clone()
                     inner.effects = []
-                    for x in ast.walk(g.target):
-                        if isinstance(x, ast.Name):
-                            inner.env[x.id] = V(x.id)
-                    subs = [r_[0] for r_ in self.ev(e.elt, inner, depth, no_effect=no_effect)]
+                    tnames = [x.id for x in ast.walk(g.target) if isinstance(x, ast.Name)]
+                    for x in tnames:
+                        inner.env[x] = V(x)
+                    evs = self.ev(e.elt, inner, depth, no_effect=no_effect)
+                    subs = [r_[0] for r_ in evs]
                     if any(sp.effects for sp in subs) and not no_effect:
                         q.effects.append(Ev("loop", "comp", [it], node=e, sub=subs))
-                    out.append((q, Poly.atom(("comp", src_of(e.elt), src_of(g.target), it))))
+                    if len(evs) == 1:
+                        ev_ = evs[0][1]
+                        for i_, x in enumerate(tnames):
+                            ev_ = rename_prefix(ev_, x, f"${i_}")
+                        out.append((q, Poly.atom(("comp", ev_, ",".join(f"${i_}" for i_ in range(len(tnames))), it))))
+                    else:
+                        out.append((q, Poly.atom(("comp", src_of(e.elt), src_of(g.target), it))))
                     continue
                 acc: List[Tuple[Path, List[Poly]]] = [(q, [])]
                 for row in rows:
@@ -1181,6 +1209,15 @@ class PyFlow:
                 return out
         if fname == "dict" and isinstance(f, ast.Name) and not e.args and all(k.arg is not None for k in e.keywords):
             return [(q, Poly.atom(("dict", tuple(S(k.arg) for k in e.keywords), tuple(vals)))) for q, vals in self.ev_many([k.value for k in e.keywords], p, depth, no_effect=no_effect)]
+        if fname == "sum" and isinstance(f, ast.Name) and len(e.args) == 1:
+            out = []
+            for q, v in self.ev(e.args[0], p, depth, no_effect=no_effect):
+                a = single_atom(v)
+                if a is not None and a[0] == "comp" and isinstance(a[1], Poly):
+                    out.append((q, Poly.atom(("sumloop", a[1], a[3]))))
+                else:
+                    out.append((q, call("sum", v)))
+            return out
         if fname == "min" and isinstance(f, ast.Name):
             return [(q, vmin(vals)) for q, vals in self.ev_many(e.args, p, depth, no_effect=no_effect)]
         if fname == "int" and isinstance(f, ast.Name) and len(e.args) == 1:
@@ -1294,6 +1331,53 @@ class PyFlow:
                         q2.done = "exit"
                 out.append((q2, val))
         return out
+
+
+def rename_prefix(p: Poly, old: str, new: str) -> Poly:
+    """Rename variable `old` and every dotted variable below it (`old.x.y`)."""
+    from .normal import rebuild
+
+    out = Poly.const(0)
+    for m_, c_ in p.terms.items():
+        term = Poly.const(c_)
+        for a, e_ in m_:
+            if a[0] == "var" and (a[1] == old or a[1].startswith(old + ".")):
+                pa = V(new + a[1][len(old):])
+            elif a[0] == "var":
+                pa = Poly.atom(a)
+            else:
+                parts: List[Any] = [a[0]]
+                for x in a[1:]:
+                    if isinstance(x, Poly):
+                        parts.append(rename_prefix(x, old, new))
+                    elif isinstance(x, tuple):
+                        parts.append(tuple(rename_prefix(y, old, new) if isinstance(y, Poly) else y for y in x))
+                    else:
+                        parts.append(x)
+                pa = rebuild(tuple(parts))
+            for _ in range(e_):
+                term = term * pa
+        out = out + term
+    return out
+
+
+def _atoms_of(p: Poly) -> list:
+    out = []
+
+    def rec(q: Poly) -> None:
+        for m_ in q.terms:
+            for a, _ in m_:
+                out.append(a)
+                for x in a[1:]:
+                    if isinstance(x, Poly):
+                        rec(x)
+                    elif isinstance(x, tuple):
+                        for y in x:
+                            if isinstance(y, Poly):
+                                rec(y)
+
+    rec(p)
+    return out
 
 
 def _is_none(p: Poly) -> bool:
